@@ -186,6 +186,9 @@ class Assembly:
         if body is None:
             raise Undecided('fn %s has no body' % a['name'])
         log = []
+        # comments of the body are dropped first: anchors and substitutions work on code only (a comment that quotes code must not be rewritten
+        # into live code, and must not change an anchor's count)
+        body = X.strip_comments(body)
         body, c = X.r1_drop_log(body); log.append(('R1 drop-log', c))
         body, c = X.r12_exec_asserts(body); log.append(('R12 exec-assert', c))
         body, c = X.r8_opaque_text(body); log.append(('R8 opaque-text/panic-args', c))
@@ -198,9 +201,15 @@ class Assembly:
             # breaktype="name=Type;name2=Type2"
             types = dict(x.split('=', 1) for x in a['breaktype'].split(';;'))
             body, c = X.r10_break_value(body, types); log.append(('R10 break-with-value desugar', c))
-        # structure of the ORIGINAL body (before the logged substitutions): a changed number of loops / closures is exit 2
+        # structure of the ORIGINAL body (before the logged substitutions): a changed number of loops / closures is exit 2; so is a changed
+        # list of parameter names (contracts name parameters: two same-typed parameters renamed onto each other's names would otherwise be
+        # verified against a clause that describes the other argument)
         nl, nc = X.count_loops(body), X.count_closures(body)
-        _lock_check(a, item, nl, nc, bool(sec.get('closures')) or bool(sec.get('loops')) or bool(sec.get('loopends')))
+        try:
+            pnames = list(X.sig_params(sig)[1])
+        except Exception:
+            pnames = None
+        _lock_check(a, item, nl, nc, bool(sec.get('closures')) or bool(sec.get('loops')) or bool(sec.get('loopends')), pnames)
         if 'loops' in a and int(a['loops']) != nl:
             raise Undecided('fn %s: expected %s loops, found %d' % (a['name'], a['loops'], nl))
         if 'closures' in a and int(a['closures']) != nc:
@@ -343,20 +352,21 @@ LOCK_PATH = os.path.join(VERIF, 'contracts', 'structure.lock.json')
 _LOCK = None
 
 
-def _lock_check(a, item, nl, nc, has_ordinal_specs=True):
+def _lock_check(a, item, nl, nc, has_ordinal_specs=True, pnames=None):
     """the number of loops and closures of every function under contract is pinned (contracts/structure.lock.json, written by
     tools/lock_structure.py on the tree the contracts were developed against). Splices are keyed by loop / closure ordinal and
     un-annotated new closures carry no specification, so a structural change means the contracts no longer describe this body:
     UNDECIDED (exit 2), never an alarm."""
     global _LOCK
     import json
-    key = '%s :: %s :: %s' % (item['file'], item['impl'] or '(free)', a['name'])
+    # keyed by the TEMPLATE's own locator strings (the source's impl header may be re-flowed or have its bounds reordered)
+    key = '%s :: %s :: %s' % (a['file'], a.get('impl') or a.get('trait') or '(free)', a['name'])
     if os.environ.get('VX_LOCK_WRITE'):
         try:
             cur = json.load(open(LOCK_PATH))
         except Exception:
             cur = {}
-        cur[key] = [nl, nc]
+        cur[key] = [nl, nc, pnames]
         json.dump(cur, open(LOCK_PATH, 'w'), indent=1, sort_keys=True)
         return
     if _LOCK is None:
@@ -364,7 +374,11 @@ def _lock_check(a, item, nl, nc, has_ordinal_specs=True):
             _LOCK = json.load(open(LOCK_PATH))
         except Exception:
             _LOCK = {}
-    if key in _LOCK and list(_LOCK[key]) != [nl, nc]:
+    if key not in _LOCK:
+        raise Undecided('structure of %s is not pinned (run tools/lock_structure.py on the tree the contracts were written for)' % key)
+    if len(_LOCK[key]) > 2 and _LOCK[key][2] is not None and pnames is not None and list(_LOCK[key][2]) != list(pnames):
+        raise Undecided('parameters of %s changed: %s, contracts were written for %s' % (key, pnames, _LOCK[key][2]))
+    if list(_LOCK[key][:2]) != [nl, nc]:
         if not has_ordinal_specs and nl <= _LOCK[key][0] and nc <= _LOCK[key][1]:
             # FEWER loops / closures and the template splices nothing by ordinal into this function: no un-annotated new closure or loop can
             # be the reason for a failed obligation, and nothing can be misaligned - the (simpler) body is verified as it stands
